@@ -109,6 +109,57 @@ func checkC01(c *Ctx) {
 			}
 		}
 	})
+	// a configured directory inside another configured directory: each is scanned for the
+	// files directly inside it, at its own place in the list (the inner one is just a
+	// subdirectory when the outer one is scanned)
+	c.RunCases("nested", c.pick(80, 2000), 0, func(cs *Case) {
+		r := cs.R
+		root := filepath.Join(c.Scratch, sanitize(cs.Name))
+		must(os.MkdirAll(root, 0o755))
+		defer os.RemoveAll(root)
+		p := genPop(r, root)
+		var parents []int
+		for i := range p.Phys {
+			if p.Exists[i] {
+				parents = append(parents, i)
+			}
+		}
+		if len(parents) == 0 {
+			return
+		}
+		parent := parents[r.Intn(len(parents))]
+		inner := len(p.Phys)
+		p.Phys = append(p.Phys, filepath.Join(p.Phys[parent], "inner.d"))
+		p.Exists = append(p.Exists, true)
+		for k := 0; k < 1+r.Intn(3); k++ {
+			name := specFileNames[r.Intn(len(specFileNames))]
+			if p.find(inner, name) < 0 {
+				p.Files = append(p.Files, p.newValidFile(r, inner, name))
+			}
+		}
+		// the inner directory anywhere in the list: before the outer one, after it, both
+		at := r.Intn(len(p.ConfPhys) + 1)
+		p.ConfPhys = append(p.ConfPhys[:at:at], append([]int{inner}, p.ConfPhys[at:]...)...)
+		p.Conf = append(p.Conf[:at:at], append([]string{pickStr(r, p.Phys[inner], p.Phys[inner]+"/", p.Phys[parent]+"/./inner.d")}, p.Conf[at:]...)...)
+		p.Write()
+		cache, _ := cdi.NewCache(cdi.WithSpecDirs(p.Conf...), cdi.WithAutoRefresh(false))
+		history := []string{"initial (a configured directory inside another one)"}
+		for k := 0; k < 2; k++ {
+			if k > 0 {
+				history = append(history, p.Relist(r, -1))
+				o, ru := withDirs(p.Conf)
+				cache.Configure(o)
+				ru()
+			}
+			res := p.Resolve()
+			c01Note(c, res)
+			c.Count("comparisons_with_nested_configured_directories", 1)
+			if bad := compareCache(cache, res, true); len(bad) > 0 {
+				cs.Violation("resolution", map[string]string{"mode": "manual", "shape": "nested"}, bad[0], map[string]any{"discrepancies": bad, "population": p.Describe(), "history": history})
+				return
+			}
+		}
+	})
 	// auto-refresh mode
 	c.RunCases("auto", nAuto, 4, func(cs *Case) {
 		r := cs.R
